@@ -29,7 +29,7 @@ ASSUMPTIONS = [
 ]
 NSHARDS = {"quick": 16, "thorough": 16}
 N_SIM = {"quick": 40, "thorough": 7000}
-REQUIRE = {"stat_fields_compared": 5000, "pipelines_completed_checked": 1000, "empty_class_compared": 100,
+REQUIRE = {"scale:run_with_more_than_1024_completions_of_one_class": 1, "stat_fields_compared": 5000, "pipelines_completed_checked": 1000, "empty_class_compared": 100,
            "runs_without_arrivals": 5, "runs_without_completions": 10, "runs_without_container_endings": 5,
            "uncontended_latency_checked": 30, "runs_with_recurring_pipeline_ids": 8, "sim_release_checked": 0}
 REQUIRE.pop("sim_release_checked")
